@@ -207,6 +207,10 @@ pub struct Outcome {
     /// first line of the error's display text (what a C host sees), when the run failed
     pub error_text: Option<String>,
     pub host_activity: u64,
+    /// values the host kept (order payloads, the completion value) re-read at the end of the run,
+    /// after further collections and allocations: first difference, if any
+    pub held_value_changed: Option<String>,
+    pub held_values_reread: u64,
 }
 
 impl Outcome {
@@ -362,6 +366,8 @@ pub struct Run {
     pub stop_reason: Option<String>,
     keepalive: Vec<RuntimeValue>,
     console_start: usize,
+    /// host-held values with what they showed when the host received them
+    held: Vec<(RuntimeValue, String)>,
 }
 
 pub const MAX_ROUNDS: u64 = 400;
@@ -384,6 +390,7 @@ impl Run {
             stop_reason: None,
             keepalive: Vec::new(),
             console_start: 0,
+            held: Vec::new(),
         }
     }
 
@@ -426,6 +433,7 @@ impl Run {
                 let s = show_value(v.value());
                 self.out.traffic.push("complete".into());
                 self.finish(format!("complete:{}", s));
+                self.held.push((v, s));
             }
             Ok(StepResult::Done) => {
                 self.out.traffic.push("done".into());
@@ -462,7 +470,13 @@ impl Run {
                     let _ = write!(t, "[c{}]", c.0);
                 }
                 self.out.traffic.push(t);
-                drop(pending);
+                // the host keeps every order payload until the run is over (a "host-held value")
+                for o in pending {
+                    let shown = show_value(o.payload.value());
+                    if self.held.len() < 64 {
+                        self.held.push((o.payload, shown));
+                    }
+                }
                 self.host_suspended(h);
             }
             Err(e) => {
@@ -712,6 +726,25 @@ impl Run {
     }
 
     pub fn finalize(&mut self, h: &mut Host) {
+        // re-read host-held values after more allocation and a collection under the run's schedule
+        if !self.held.is_empty() {
+            let g = api::create_guard(&h.interp);
+            for i in 0..8 {
+                let _ = api::create_from_json(&mut h.interp, &g, &serde_json::json!({"junk": [i, {"j": i}], "s": "x"}));
+            }
+            drop(g);
+            if !self.spec.gc.is_off() {
+                h.interp.collect();
+            }
+            for (rv, before) in &self.held {
+                self.out.held_values_reread += 1;
+                let now = show_value(rv.value());
+                if &now != before && self.out.held_value_changed.is_none() {
+                    self.out.held_value_changed = Some(format!("was {} now {}", before, now));
+                }
+            }
+        }
+        self.held.clear();
         self.out.console = h.console.borrow().get(self.console_start..).map(|s| s.to_vec()).unwrap_or_default();
         let names = {
             let mut n = h.interp.get_export_names();
